@@ -70,8 +70,10 @@ inductive PC where
   | readId           -- evaluation of `UploadId=self.uploadId` (127 / 143)
   | call (id : Nat)  -- `s3.upload_part` (122) / `s3.complete_multipart_upload` (140)
   | askClient2       -- `finalise` only: `_dask_client()` (312) → `None`
+  | releaseFault     -- leaving the `with` block with an injected storage error in flight
   | done             -- returned normally
   | failed           -- raised (AssertionError)
+  | faulted          -- raised the injected storage error (TransientError)
   deriving DecidableEq, Repr
 
 /-- Lock objects are named by the thread whose `Lock()` call created them (a thread
@@ -92,6 +94,10 @@ structure Cfg where
   /-- `true`: the code as it is (`_state.setdefault`, atomic); `false`: a check-then-store
   (`_state[k] = Lock()`), kept to show what the atomicity is needed for. -/
   atomicLock : Bool := true
+  /-- transient-error fault model: thread `t`'s `create_multipart_upload` call raises (nothing is
+  created) / its `upload_part` or `complete_multipart_upload` call raises (nothing is recorded) -/
+  faultCreate : Nat → Bool := fun _ => false
+  faultCall : Nat → Bool := fun _ => false
 
 def State.goto (s : State) (t : Nat) (p : PC) : State :=
   { s with pc := fun i => if i = t then p else s.pc i }
@@ -134,19 +140,25 @@ def step (cfg : Cfg) (s : State) (t : Nat) : State :=
   | .recheck => s.goto t (if s.uploadId ≠ 0 then .release true else .initAssert)
   | .initAssert => s.goto t (if s.uploadId = 0 then .create else .release false)
   | .create =>
-    { s with creates := s.creates + 1, calls := .create (s.creates + 1) :: s.calls }.goto t
-      (.setId (s.creates + 1))
+    if cfg.faultCreate t then s.goto t .releaseFault
+    else
+      { s with creates := s.creates + 1, calls := .create (s.creates + 1) :: s.calls }.goto t
+        (.setId (s.creates + 1))
   | .setId id => { s with uploadId := id }.goto t (.release true)
   | .release ok => (s.setHolder (s.mylock t) none).goto t (if ok then .useAssert else .failed)
+  | .releaseFault => (s.setHolder (s.mylock t) none).goto t .faulted
   | .useAssert => s.goto t (if s.uploadId ≠ 0 then .readId else .failed)
   | .readId => s.goto t (.call s.uploadId)
   | .call id =>
-    match cfg.kind t with
-    | .write p => { s with calls := .upload p id :: s.calls }.goto t .done
-    | .fin => { s with calls := .complete id :: s.calls }.goto t .askClient2
+    if cfg.faultCall t then s.goto t .faulted
+    else
+      match cfg.kind t with
+      | .write p => { s with calls := .upload p id :: s.calls }.goto t .done
+      | .fin => { s with calls := .complete id :: s.calls }.goto t .askClient2
   | .askClient2 => s.goto t .done
   | .done => s
   | .failed => s
+  | .faulted => s
 
 /-- A schedule is the list of thread ids in the order in which they are given a step. -/
 def runFrom (cfg : Cfg) (s : State) (sched : List Nat) : State := sched.foldl (step cfg) s
@@ -156,7 +168,7 @@ def run (cfg : Cfg) (sched : List Nat) : State := runFrom cfg init sched
 /-- thread `t` can make progress (its `step` is not a stutter) -/
 def enabled (s : State) (t : Nat) : Bool :=
   match s.pc t with
-  | .done | .failed => false
+  | .done | .failed | .faulted => false
   | .acquire => (s.locks (s.mylock t)).isNone
   | _ => true
 
@@ -169,10 +181,10 @@ def label (cfg : Cfg) (s : State) (t : Nat) : String :=
   | .lockGet => "sget"
   | .lockSetdefault => if cfg.atomicLock then "ssd" else "sset"
   | .acquire => if (s.locks (s.mylock t)).isNone then "acq" else "acq!"
-  | .release _ => "rel"
+  | .release _ | .releaseFault => "rel"
   | .create => "create"
   | .call _ => match cfg.kind t with | .write _ => "upload" | .fin => "complete"
-  | .done | .failed => "-"
+  | .done | .failed | .faulted => "-"
 
 end Local
 
@@ -206,8 +218,10 @@ inductive PC where
   | call (id : Nat)    -- `upload_part` / `complete_multipart_upload`
   | askClient2         -- `finalise`: `_dask_client()` (312) → client
   | delVar             -- `cleanup_client` → `Variable.delete()` (248)
+  | releaseFault       -- leaving `with lock:` with an injected storage error in flight
   | done
   | failed
+  | faulted            -- raised the injected storage error (TransientError)
   deriving DecidableEq, Repr
 
 structure State where
@@ -222,6 +236,10 @@ structure State where
 structure Cfg where
   kind : Nat → Kind
   worker : Nat → Nat     -- worker process on which thread `t` runs
+  /-- transient-error fault model, as in `Local.Cfg`; a finalise whose `complete` call raises
+  does not reach `cleanup_client`: the shared variable stays in place for the retry -/
+  faultCreate : Nat → Bool := fun _ => false
+  faultCall : Nat → Bool := fun _ => false
 
 def State.goto (s : State) (t : Nat) (p : PC) : State :=
   { s with pc := fun i => if i = t then p else s.pc i }
@@ -261,25 +279,31 @@ def step (cfg : Cfg) (s : State) (t : Nat) : State :=
   | .setOwn2 id => (s.setWid w id).goto t (.release .ret)
   | .initAssert => s.goto t (if s.wid w = 0 then .create else .release .raise)
   | .create =>
-    { s with creates := s.creates + 1, calls := .create (s.creates + 1) :: s.calls }.goto t
-      (.setId (s.creates + 1))
+    if cfg.faultCreate t then s.goto t .releaseFault
+    else
+      { s with creates := s.creates + 1, calls := .create (s.creates + 1) :: s.calls }.goto t
+        (.setId (s.creates + 1))
   | .setId id => (s.setWid w id).goto t .readForVar
   | .readForVar => s.goto t (.setVar (s.wid w))
   | .setVar id => { s with var := some id }.goto t (.release .fall)
   | .release a =>
     { s with lock := none }.goto t
       (match a with | .raise => .failed | .ret => .useAssert | .fall => .endAssert)
+  | .releaseFault => { s with lock := none }.goto t .faulted
   | .endAssert => s.goto t (if s.wid w ≠ 0 then .useAssert else .failed)
   | .useAssert => s.goto t (if s.wid w ≠ 0 then .readId else .failed)
   | .readId => s.goto t (.call (s.wid w))
   | .call id =>
-    match cfg.kind t with
-    | .write p => { s with calls := .upload p id :: s.calls }.goto t .done
-    | .fin => { s with calls := .complete id :: s.calls }.goto t .askClient2
+    if cfg.faultCall t then s.goto t .faulted
+    else
+      match cfg.kind t with
+      | .write p => { s with calls := .upload p id :: s.calls }.goto t .done
+      | .fin => { s with calls := .complete id :: s.calls }.goto t .askClient2
   | .askClient2 => s.goto t .delVar
   | .delVar => { s with var := none, deleted := true }.goto t .done
   | .done => s
   | .failed => s
+  | .faulted => s
 
 def runFrom (cfg : Cfg) (s : State) (sched : List Nat) : State := sched.foldl (step cfg) s
 
@@ -287,7 +311,7 @@ def run (cfg : Cfg) (sched : List Nat) : State := runFrom cfg init sched
 
 def enabled (s : State) (t : Nat) : Bool :=
   match s.pc t with
-  | .done | .failed => false
+  | .done | .failed | .faulted => false
   | .acquire => s.lock.isNone
   | _ => true
 
@@ -300,10 +324,10 @@ def label (cfg : Cfg) (s : State) (t : Nat) : String :=
   | .setVar _ => "vset"
   | .delVar => "vdel"
   | .acquire => if s.lock.isNone then "acq" else "acq!"
-  | .release _ => "rel"
+  | .release _ | .releaseFault => "rel"
   | .create => "create"
   | .call _ => match cfg.kind t with | .write _ => "upload" | .fin => "complete"
-  | .done | .failed => "-"
+  | .done | .failed | .faulted => "-"
 
 end Dist
 
@@ -329,6 +353,8 @@ structure Cfg where
   worker : Nat → Nat
   varName : Nat → Nat    -- worker ↦ name its process computes for the Variable ("MPUpload-…")
   lockName : Nat → Nat   -- worker ↦ name its process computes for the Lock ("MPULock-…")
+  faultCreate : Nat → Bool := fun _ => false
+  faultCall : Nat → Bool := fun _ => false
 
 def State.goto (s : State) (t : Nat) (p : PC) : State :=
   { s with pc := fun i => if i = t then p else s.pc i }
@@ -367,25 +393,31 @@ def step (cfg : Cfg) (s : State) (t : Nat) : State :=
   | .setOwn2 id => (s.setWid w id).goto t (.release .ret)
   | .initAssert => s.goto t (if s.wid w = 0 then .create else .release .raise)
   | .create =>
-    { s with creates := s.creates + 1, calls := .create (s.creates + 1) :: s.calls }.goto t
-      (.setId (s.creates + 1))
+    if cfg.faultCreate t then s.goto t .releaseFault
+    else
+      { s with creates := s.creates + 1, calls := .create (s.creates + 1) :: s.calls }.goto t
+        (.setId (s.creates + 1))
   | .setId id => (s.setWid w id).goto t .readForVar
   | .readForVar => s.goto t (.setVar (s.wid w))
   | .setVar id => (s.setVar vn (some id)).goto t (.release .fall)
   | .release a =>
     (s.setLock ln none).goto t
       (match a with | .raise => .failed | .ret => .useAssert | .fall => .endAssert)
+  | .releaseFault => (s.setLock ln none).goto t .faulted
   | .endAssert => s.goto t (if s.wid w ≠ 0 then .useAssert else .failed)
   | .useAssert => s.goto t (if s.wid w ≠ 0 then .readId else .failed)
   | .readId => s.goto t (.call (s.wid w))
   | .call id =>
-    match cfg.kind t with
-    | .write p => { s with calls := .upload p id :: s.calls }.goto t .done
-    | .fin => { s with calls := .complete id :: s.calls }.goto t .askClient2
+    if cfg.faultCall t then s.goto t .faulted
+    else
+      match cfg.kind t with
+      | .write p => { s with calls := .upload p id :: s.calls }.goto t .done
+      | .fin => { s with calls := .complete id :: s.calls }.goto t .askClient2
   | .askClient2 => s.goto t .delVar
   | .delVar => { (s.setVar vn none) with deleted := true }.goto t .done
   | .done => s
   | .failed => s
+  | .faulted => s
 
 def runFrom (cfg : Cfg) (s : State) (sched : List Nat) : State := sched.foldl (step cfg) s
 
@@ -402,6 +434,81 @@ def label (cfg : Cfg) (s : State) (t : Nat) : String :=
   | _ => Dist.label { kind := cfg.kind, worker := cfg.worker } (proj 0 0 s) t
 
 end DistN
+
+/-! ## One upload object over time: writes, finalise and `cancel` in sequence
+(`MultiPartUpload.cancel / list_active`, _s3.py:153-175, with the in-process writer) -/
+namespace Seq
+
+/-- what the caller does next with the shared `MultiPartUpload` / its writer -/
+inductive Op where
+  | write                    -- `writer(next part, data)`
+  | fin                      -- `writer.finalise(parts)`
+  | cancelAll                -- `mpu.cancel("all")` / `cancel(":ALL:")` (compared case-insensitively)
+  | cancelCur                -- `mpu.cancel()`: the current upload id
+  | cancelId (k : Nat)       -- `mpu.cancel("id<k>")`: an explicit, possibly stale, id
+  deriving DecidableEq, Repr
+
+inductive SCall where
+  | create (id : Nat)
+  | upload (part id : Nat)
+  | complete (id : Nat)
+  | list
+  | abort (id : Nat)
+  deriving DecidableEq, Repr
+
+/-- the object and the storage service: uploads are active, completed or aborted; only
+active ones are listed, accept parts, can be completed or aborted (`NoSuchUpload` otherwise) -/
+structure State where
+  uploadId : Nat := 0
+  creates : Nat := 0
+  active : List Nat := []
+  completed : List Nat := []
+  aborted : List Nat := []
+  nextPart : Nat := 1
+  deriving DecidableEq, Repr
+
+/-- `_ensure_init` without contention: initiate iff not started -/
+def ensureInit (s : State) : State × List SCall :=
+  if s.uploadId ≠ 0 then (s, [])
+  else ({ s with uploadId := s.creates + 1, creates := s.creates + 1, active := (s.creates + 1) :: s.active },
+        [.create (s.creates + 1)])
+
+/-- result: new state, storage calls in order, `true` = returned normally / `false` = NoSuchUpload -/
+def step (s : State) : Op → State × List SCall × Bool
+  | .write =>
+    let (s1, c) := ensureInit s
+    let s2 := { s1 with nextPart := s1.nextPart + 1 }
+    (s2, c ++ [.upload s1.nextPart s1.uploadId], s1.active.contains s1.uploadId)
+  | .fin =>
+    let (s1, c) := ensureInit s
+    if s1.active.contains s1.uploadId then
+      ({ s1 with active := s1.active.filter (· != s1.uploadId), completed := s1.uploadId :: s1.completed },
+       c ++ [.complete s1.uploadId], true)
+    else (s1, c ++ [.complete s1.uploadId], false)
+  | .cancelAll =>
+    -- `other = "all"` is never empty: no early return; every listed (= active) upload is aborted
+    ({ s with uploadId := 0, active := [], aborted := s.active ++ s.aborted },
+     .list :: s.active.map .abort, true)
+  | .cancelCur =>
+    if s.uploadId = 0 then (s, [], true)
+    else if s.active.contains s.uploadId then
+      ({ s with uploadId := 0, active := s.active.filter (· != s.uploadId), aborted := s.uploadId :: s.aborted },
+       [.abort s.uploadId], true)
+    else (s, [.abort s.uploadId], false)
+  | .cancelId k =>
+    if s.active.contains k then
+      ({ s with uploadId := if k = s.uploadId then 0 else s.uploadId,
+                active := s.active.filter (· != k), aborted := k :: s.aborted }, [.abort k], true)
+    else (s, [.abort k], false)
+
+def run : State → List Op → State × List SCall × List Bool
+  | s, [] => (s, [], [])
+  | s, o :: rest =>
+    let (s1, c, ok) := step s o
+    let (s2, cs, oks) := run s1 rest
+    (s2, c ++ cs, ok :: oks)
+
+end Seq
 
 /-! ## File sink (`MPUFileSink`, _mpu_fs.py:53-92) -/
 
